@@ -704,6 +704,10 @@ int yr_parser_reduce_string_declaration(
   YR_RULE* current_rule = _yr_compiler_get_rule_by_idx(
       compiler, compiler->current_rule_idx);
 
+  // The parsers only fill in the message for syntax errors, make sure it is
+  // an empty string for any other error (e.g: out of memory).
+  re_error.message[0] = '\0';
+
   // Determine if a string with the same identifier was already defined
   // by searching for the identifier in strings_table.
   uint32_t string_idx = yr_hash_table_lookup_uint32(
